@@ -258,9 +258,13 @@ pub fn run_shard(prop: &dyn Property, tier: &str, seed: u64, total: usize, k: us
 
 fn run_shards(prop: &dyn Property, tier: &str, seed: u64, total: usize, shards: usize) -> Result<Vec<Record>, String> {
     let exe = std::env::current_exe().map_err(|e| format!("current_exe: {}", e))?;
-    let dir = PathBuf::from(format!("/dev/shm/dvsim-batch-{}", std::process::id()));
+    let mut dir = PathBuf::from(format!("/dev/shm/dvsim-batch-{}", std::process::id()));
     let _ = fs::remove_dir_all(&dir);
-    fs::create_dir_all(&dir).map_err(|e| format!("mkdir {}: {}", dir.display(), e))?;
+    if fs::create_dir_all(&dir).is_err() {
+        dir = std::env::temp_dir().join(format!("dvsim-batch-{}", std::process::id()));
+        let _ = fs::remove_dir_all(&dir);
+        fs::create_dir_all(&dir).map_err(|e| format!("mkdir {}: {}", dir.display(), e))?;
+    }
     let mut children = Vec::new();
     for k in 0..shards {
         let out = dir.join(format!("shard-{}.jsonl", k));
